@@ -40,16 +40,21 @@ class Task:
               refutations of the fallback run matter, the task stays undecided.
     """
 
-    def __init__(self, name, fn, functions=(), bounded=None, max_paths=None, fallback=None):
+    def __init__(self, name, fn, functions=(), bounded=None, max_paths=None, fallback=None, enumerate=None):
         self.name, self.fn, self.functions = name, fn, list(functions)
         self.bounded = bounded
         self.max_paths = max_paths
         self.fallback = fallback
+        # enumerate(seed) -> {"name", "bound", "cases", "failures": [{"model", "detail"}]}: exhaustive native runs of the
+        # real function over a small stated domain against the executable spec (bounded stand-in, never "proved")
+        self.enumerate = enumerate
 
 
-def _explore(task, mode):
+def _explore(task, mode, deadline_s=None):
     ex = Explorer(task.name, max_paths=task.max_paths)
     ex.mode = mode
+    if deadline_s:
+        ex.deadline = time.time() + deadline_s
     status, error = "ok", None
     try:
         ex.run(task.fn)
@@ -86,11 +91,32 @@ def run_task(task):
     res = {"task": task.name, "bounded": _bound_text(task.bounded), "status": status, "error": error}
     fallback_res = None
     if status == "out-of-subset" and task.fallback and not task.bounded:
-        ex2, st2, err2 = _explore(task, task.fallback)
+        import os
+        old = os.environ.get("PYVC_QUERY_TIMEOUT_S")
+        os.environ["PYVC_QUERY_TIMEOUT_S"] = "4"  # the fallback only looks for refutations: short budget
+        try:
+            ex2, st2, err2 = _explore(task, task.fallback, deadline_s=90)
+        finally:
+            if old is None:
+                os.environ.pop("PYVC_QUERY_TIMEOUT_S", None)
+            else:
+                os.environ["PYVC_QUERY_TIMEOUT_S"] = old
         fallback_res = {"bounded": "fallback after out-of-subset: " + _bound_text(task.fallback), "status": st2, "error": err2,
                         "obligations": [o.to_json() for o in ex2.obligations.values()], "paths": ex2.paths}
     res["obligations"] = [o.to_json() for o in ex.obligations.values()]
     res["fallback"] = fallback_res
+    # bounded enumeration of the real function against the executable spec: a labelled stand-in,
+    # used when the deductive run is undecided (and always in the thorough tier)
+    res["enumeration"] = None
+    import os
+    undec = status != "ok" or any(o.status == "undecided" for o in ex.obligations.values())
+    if task.enumerate is not None and (undec or os.environ.get("VERIF_TIER") == "thorough"):
+        try:
+            en = task.enumerate(int(os.environ.get("VERIF_SEED", "0") or 0))
+            res["enumeration"] = en
+        except Exception as e:
+            res["enumeration"] = {"name": task.name + ".bounded_enumeration", "bound": "crashed", "cases": 0, "failures": [],
+                                  "error": f"{type(e).__name__}: {e}\n{traceback.format_exc(limit=6)}"}
     res["samples"] = {o.name: o.sample for o in list(ex.obligations.values())[:2] if o.sample}
     res["paths"] = ex.paths
     res["covers"] = ex.covers
